@@ -166,6 +166,14 @@ Qed.
 Ltac dm := repeat match goal with
   | |- context [match ?x with _ => _ end] => destruct x eqn:?
   end.
+Ltac zb := repeat match goal with
+  | H : (_ <? _) = true |- _ => apply Z.ltb_lt in H
+  | H : (_ <? _) = false |- _ => apply Z.ltb_ge in H
+  | H : (_ <=? _) = true |- _ => apply Z.leb_le in H
+  | H : (_ <=? _) = false |- _ => apply Z.leb_gt in H
+  | H : (_ =? _) = true |- _ => apply Z.eqb_eq in H
+  | H : (_ =? _) = false |- _ => apply Z.eqb_neq in H
+  end.
 Ltac prj := cbn [fst snd proposal oracles by_bridger by_ext last_total last_obs last_by atts pending
                  applied effects vlog refresh with_oracles] in *.
 
@@ -446,4 +454,836 @@ Proof.
     + apply keq_spec in E. inversion E; subst n cl. right. split; auto.
     + apply keq_neq in E.
       rewrite !(aget_aset_other keq keq_spec) in Hg by exact E. left; eauto.
+Qed.
+
+(* ------------------------------------------------------------------ *)
+(* C02: recorded total power >= power of the online oracles             *)
+(* ------------------------------------------------------------------ *)
+Definition opow (o : oracle) : Z := if o_online o then power o else 0.
+
+Lemma online_power_cons : forall k o r, online_power ((k, o) :: r) = opow o + online_power r.
+Proof. reflexivity. Qed.
+
+Lemma power_nonneg : forall o, 0 <= o_stake o -> 0 <= power o.
+Proof. intros o H. unfold power, power_reduction. apply Z.quot_pos; lia. Qed.
+
+Lemma opow_nonneg : forall o, 0 <= o_stake o -> 0 <= opow o.
+Proof. intros o H. unfold opow. destruct (o_online o); [apply power_nonneg; auto | lia]. Qed.
+
+Definition stakes_ok (l : list (Z * oracle)) : Prop := forall k o, In (k, o) l -> 0 <= o_stake o.
+
+Lemma online_power_nonneg : forall l, stakes_ok l -> 0 <= online_power l.
+Proof.
+  induction l as [|[k o] r IH]; intro S; [cbn; lia|].
+  rewrite online_power_cons.
+  assert (0 <= opow o) by (apply opow_nonneg; apply (S k); left; reflexivity).
+  assert (0 <= online_power r) by (apply IH; intros k' o' H'; apply (S k'); right; exact H').
+  lia.
+Qed.
+
+Lemma stakes_ok_adel : forall k l, stakes_ok l -> stakes_ok (adel Z.eqb k l).
+Proof. intros k l S k' o' H. apply (In_adel Z.eqb zeqb_spec) in H. apply (S k'). tauto. Qed.
+
+Lemma stakes_ok_aset : forall k o l, 0 <= o_stake o -> stakes_ok l -> stakes_ok (aset Z.eqb k o l).
+Proof.
+  intros k o l H S k' o' [E|E].
+  - inversion E; subst; auto.
+  - eapply stakes_ok_adel; eauto.
+Qed.
+
+Lemma online_power_adel_le : forall k l, stakes_ok l -> online_power (adel Z.eqb k l) <= online_power l.
+Proof.
+  intros k l. unfold adel. induction l as [|[k' o] r IH]; intro S; [cbn; lia|].
+  assert (Sr : stakes_ok r) by (intros k2 o2 H2; apply (S k2); right; exact H2).
+  assert (0 <= opow o) by (apply opow_nonneg; apply (S k'); left; reflexivity).
+  cbn [filter fst]. destruct (negb (k =? k')); rewrite ?online_power_cons; specialize (IH Sr); lia.
+Qed.
+
+Lemma adel_notin : forall k (l : list (Z * oracle)), ~ In k (map fst l) -> adel Z.eqb k l = l.
+Proof.
+  intros k l. unfold adel. induction l as [|[k' o] r IH]; cbn; intro H; auto.
+  destruct (k =? k') eqn:E.
+  - apply Z.eqb_eq in E. subst. exfalso. apply H. left. reflexivity.
+  - cbn. f_equal. apply IH. intro A. apply H. right. exact A.
+Qed.
+
+Lemma online_power_split : forall k o l, NoDup (map fst l) -> aget Z.eqb k l = Some o ->
+  online_power l = opow o + online_power (adel Z.eqb k l).
+Proof.
+  intros k o l. induction l as [|[k' o'] r IH]; cbn [aget map fst]; intros N G; [discriminate|].
+  inversion N; subst.
+  destruct (k =? k') eqn:E.
+  - apply Z.eqb_eq in E. subst k'. inversion G; subst o'.
+    unfold adel. cbn [filter fst]. rewrite Z.eqb_refl. cbn [negb].
+    fold (adel Z.eqb k r). rewrite adel_notin by assumption. reflexivity.
+  - unfold adel. cbn [filter fst]. rewrite E. cbn [negb]. fold (adel Z.eqb k r).
+    rewrite !online_power_cons. rewrite (IH H2 G). lia.
+Qed.
+
+Lemma online_power_aset : forall k o l, online_power (aset Z.eqb k o l) = opow o + online_power (adel Z.eqb k l).
+Proof. reflexivity. Qed.
+
+Definition inv_total (s : st) : Prop :=
+  NoDup (map fst (oracles s)) /\ stakes_ok (oracles s) /\ online_power (oracles s) <= last_total s.
+
+Lemma slash_one_inv : forall os k os', slash_one os k = Some os' ->
+  NoDup (map fst os) -> stakes_ok os -> NoDup (map fst os') /\ stakes_ok os'.
+Proof.
+  intros os k os' H N S. unfold slash_one in H.
+  destruct (aget Z.eqb k os) as [rec|] eqn:G; [|discriminate].
+  destruct (negb (o_online rec)); inversion H; subst; auto.
+  split.
+  - apply (NoDup_keys_aset Z.eqb zeqb_spec). exact N.
+  - apply stakes_ok_aset; auto. cbn. apply (S k). apply (aget_In Z.eqb zeqb_spec). exact G.
+Qed.
+
+Lemma slash_all_inv : forall l os os', slash_all os l = Some os' ->
+  NoDup (map fst os) -> stakes_ok os -> NoDup (map fst os') /\ stakes_ok os'.
+Proof.
+  induction l as [|k r IH]; cbn; intros os os' H N S.
+  - inversion H; subst; auto.
+  - destruct (slash_one os k) as [os1|] eqn:E; [|discriminate].
+    destruct (slash_one_inv _ _ _ E N S). eapply IH; eauto.
+Qed.
+
+Lemma gov_map_keys : forall s new l,
+  map fst (map (fun p : Z * oracle => if removed_by s new p then (fst p, unbond_from_proposal (snd p)) else p) l) = map fst l.
+Proof.
+  intros. rewrite map_map. apply map_ext. intros [k o]. destruct (removed_by s new (k, o)); reflexivity.
+Qed.
+
+Lemma gov_map_stakes : forall s new l, stakes_ok l ->
+  stakes_ok (map (fun p : Z * oracle => if removed_by s new p then (fst p, unbond_from_proposal (snd p)) else p) l).
+Proof.
+  intros s new l S k o H. apply in_map_iff in H. destruct H as [[k' o'] [E H]].
+  destruct (removed_by s new (k', o')); inversion E; subst; cbn; eapply S; eauto.
+Qed.
+
+Lemma gov_map_power : forall s new l, stakes_ok l ->
+  online_power (map (fun p : Z * oracle => if removed_by s new p then (fst p, unbond_from_proposal (snd p)) else p) l)
+  <= online_power l.
+Proof.
+  intros s new l. induction l as [|[k o] r IH]; intro S; [cbn; lia|].
+  assert (Sr : stakes_ok r) by (intros k2 o2 H2; apply (S k2); right; exact H2).
+  assert (0 <= opow o) by (apply opow_nonneg; apply (S k); left; reflexivity).
+  cbn [map]. destruct (removed_by s new (k, o)); cbn [fst snd]; rewrite !online_power_cons; specialize (IH Sr).
+  - unfold opow at 1. cbn. lia.
+  - lia.
+Qed.
+
+Lemma inv_total_step : forall c s x, 0 <= c_threshold c -> inv_total s -> inv_total (fst (step c s x)).
+Proof.
+  intros c s x Hc [N [S T]]. destruct x; cbn [step].
+  - (* vote *)
+    pose proof (vote_cases s bridger nonce cls park members) as V. vote_inv V; unfold inv_total.
+    + rewrite Hs. auto.
+    + rewrite Hor, Hto. auto.
+    + rewrite Hor, Hto. auto.
+  - unfold exec. dm; prj; unfold inv_total; prj; auto.
+  - (* bond *)
+    unfold bond. dm; prj; try (unfold inv_total; auto; fail);
+    (unfold inv_total; prj; zb; repeat split;
+     [ apply (NoDup_keys_aset Z.eqb zeqb_spec); exact N
+     | apply stakes_ok_aset; auto; cbn; lia
+     | lia ]).
+  - (* add delegate *)
+    unfold add_delegate. dm; prj; try (unfold inv_total; auto; fail);
+    (unfold inv_total; prj; zb; repeat split;
+     [ apply (NoDup_keys_aset Z.eqb zeqb_spec); exact N
+     | apply stakes_ok_aset; auto; cbn; lia
+     | lia ]).
+  - (* slash *)
+    unfold slash_pass. destruct (slash_all (oracles s) os) as [os'|] eqn:E; prj; [|unfold inv_total; auto].
+    destruct os as [|o r]; prj; [unfold inv_total; auto|].
+    destruct (slash_all_inv _ _ _ E N S). unfold inv_total; prj. repeat split; auto. lia.
+  - unfold inv_total; prj. repeat split; auto. lia.
+  - (* gov *)
+    unfold gov_set. dm; prj; try (unfold inv_total; auto; fail).
+    unfold inv_total; prj. repeat split.
+    + rewrite gov_map_keys. exact N.
+    + apply gov_map_stakes. exact S.
+    + pose proof (gov_map_power s os (oracles s) S). lia.
+  - (* unbond *)
+    unfold unbond. dm; prj; try (unfold inv_total; auto; fail).
+    unfold inv_total; prj. repeat split.
+    + apply (NoDup_keys_adel Z.eqb). exact N.
+    + apply stakes_ok_adel. exact S.
+    + pose proof (online_power_adel_le o (oracles s) S). lia.
+  - (* edit bridger *)
+    unfold edit_bridger. dm; prj; try (unfold inv_total; auto; fail).
+    unfold inv_total; prj. repeat split.
+    + apply (NoDup_keys_aset Z.eqb zeqb_spec). exact N.
+    + apply stakes_ok_aset; auto. cbn. apply (S o). apply (aget_In Z.eqb zeqb_spec). eassumption.
+    + rewrite online_power_aset.
+      match goal with G : aget Z.eqb o (oracles s) = Some _ |- _ => rewrite (online_power_split o _ _ N G) in T end.
+      unfold opow in *. cbn [o_online o_stake power] in *. unfold power in *. cbn [o_stake] in *. lia.
+Qed.
+
+Lemma inv_total_reach : forall c h, 0 <= c_threshold c -> inv_total (run c init h).
+Proof.
+  intros c h Hc. apply run_inv.
+  - repeat split; cbn; [constructor | intros ? ? [] | lia].
+  - intros. apply inv_total_step; assumption.
+Qed.
+
+Theorem total_ge_online : forall c h, 0 <= c_threshold c ->
+  online_power (oracles (run c init h)) <= last_total (run c init h).
+Proof. intros c h Hc. apply (inv_total_reach c h Hc). Qed.
+
+(* ------------------------------------------------------------------ *)
+(* C02: a vote is accepted only from the registered bridger of an online oracle *)
+(* ------------------------------------------------------------------ *)
+Theorem vote_accept_online : forall s b n cl park ms,
+  snd (vote s b n cl park ms) = Ok ->
+  exists o rec, aget Z.eqb b (by_bridger s) = Some o /\ aget Z.eqb o (oracles s) = Some rec /\
+                o_online rec = true /\ n = cursor s o + 1 /\
+                In (o, n) (vlog (fst (vote s b n cl park ms))).
+Proof.
+  intros s b n cl park ms H. pose proof (vote_cases s b n cl park ms) as V. rewrite H in V.
+  vote_inv V; exists o, rec; repeat split; auto; rewrite Hvl; apply in_or_app; right; left; reflexivity.
+Qed.
+
+Definition inv_bridger (s : st) : Prop :=
+  forall b o, aget Z.eqb b (by_bridger s) = Some o ->
+  exists rec, aget Z.eqb o (oracles s) = Some rec /\ o_bridger rec = b.
+
+Lemma slash_one_bridger : forall os k os', slash_one os k = Some os' ->
+  forall o r, aget Z.eqb o os = Some r -> exists r', aget Z.eqb o os' = Some r' /\ o_bridger r' = o_bridger r.
+Proof.
+  intros os k os' H o r G. unfold slash_one in H.
+  destruct (aget Z.eqb k os) as [rec|] eqn:Gk; [|discriminate].
+  destruct (negb (o_online rec)); inversion H; subst; [eauto|].
+  destruct (Z.eq_dec k o) as [E|E].
+  - subst. rewrite (aget_aset_same Z.eqb zeqb_spec). rewrite G in Gk. inversion Gk; subst. eexists; split; eauto.
+  - rewrite (aget_aset_other Z.eqb zeqb_spec) by exact E. eauto.
+Qed.
+
+Lemma slash_all_bridger : forall l os os', slash_all os l = Some os' ->
+  forall o r, aget Z.eqb o os = Some r -> exists r', aget Z.eqb o os' = Some r' /\ o_bridger r' = o_bridger r.
+Proof.
+  induction l as [|k l IH]; cbn; intros os os' H o r G.
+  - inversion H; subst; eauto.
+  - destruct (slash_one os k) as [os1|] eqn:E; [|discriminate].
+    destruct (slash_one_bridger _ _ _ E _ _ G) as [r1 [G1 B1]].
+    destruct (IH _ _ H _ _ G1) as [r2 [G2 B2]]. exists r2. split; auto. congruence.
+Qed.
+
+Lemma gov_map_aget : forall s new o l,
+  aget Z.eqb o (map (fun p : Z * oracle => if removed_by s new p then (fst p, unbond_from_proposal (snd p)) else p) l)
+  = match aget Z.eqb o l with
+    | Some r => Some (if removed_by s new (o, r) then unbond_from_proposal r else r)
+    | None => None
+    end.
+Proof.
+  intros s new o l. induction l as [|[k r] l IH]; cbn [map aget]; auto.
+  destruct (removed_by s new (k, r)) eqn:R; cbn [fst snd aget].
+  - destruct (o =? k) eqn:E; auto. apply Z.eqb_eq in E. subst. rewrite R. reflexivity.
+  - destruct (o =? k) eqn:E; auto. apply Z.eqb_eq in E. subst. rewrite R. reflexivity.
+Qed.
+
+Lemma inv_bridger_step : forall c s x, inv_bridger s -> inv_bridger (fst (step c s x)).
+Proof.
+  intros c s x IH. destruct x; cbn [step].
+  - pose proof (vote_cases s bridger nonce cls park members) as V. vote_inv V; unfold inv_bridger.
+    + rewrite Hs. exact IH.
+    + rewrite Hor, Hbb. exact IH.
+    + rewrite Hor, Hbb. exact IH.
+  - unfold exec. dm; prj; exact IH.
+  - (* bond *)
+    unfold bond. dm; prj; try exact IH.
+    intros b' o' G. prj.
+    destruct (Z.eq_dec bridger b') as [E|E].
+    + subst. rewrite (aget_aset_same Z.eqb zeqb_spec) in G. inversion G; subst.
+      rewrite (aget_aset_same Z.eqb zeqb_spec). eexists; split; eauto.
+    + rewrite (aget_aset_other Z.eqb zeqb_spec) in G by exact E.
+      destruct (IH _ _ G) as [r [Gr Br]].
+      assert (o <> o') by (intro; subst; congruence).
+      rewrite (aget_aset_other Z.eqb zeqb_spec) by assumption. eauto.
+  - (* add delegate *)
+    unfold add_delegate. dm; prj; try exact IH;
+    (intros b' o' G; prj; destruct (IH _ _ G) as [r [Gr Br]];
+     destruct (Z.eq_dec o o') as [E|E];
+     [ subst; rewrite (aget_aset_same Z.eqb zeqb_spec); eexists; split; eauto; cbn; congruence
+     | rewrite (aget_aset_other Z.eqb zeqb_spec) by exact E; eauto ]).
+  - (* slash *)
+    unfold slash_pass. destruct (slash_all (oracles s) os) as [os'|] eqn:E; prj; [|exact IH].
+    destruct os as [|k r]; prj; [exact IH|].
+    intros b' o' G. prj. destruct (IH _ _ G) as [r0 [Gr Br]].
+    destruct (slash_all_bridger _ _ _ E _ _ Gr) as [r' [G' B']]. exists r'. split; auto. congruence.
+  - exact IH.
+  - (* gov *)
+    unfold gov_set. dm; prj; try exact IH.
+    intros b' o' G. prj. destruct (IH _ _ G) as [r0 [Gr Br]].
+    rewrite gov_map_aget, Gr. eexists; split; eauto. destruct (removed_by s os (o', r0)); auto.
+  - (* unbond *)
+    unfold unbond. dm; prj; try exact IH.
+    intros b' o' G. prj.
+    match goal with Ho : aget Z.eqb o (oracles s) = Some ?rec |- _ =>
+      destruct (Z.eq_dec (o_bridger rec) b') as [E|E];
+      [ subst; rewrite (aget_adel_same Z.eqb) in G; discriminate
+      | rewrite (aget_adel_other Z.eqb zeqb_spec) in G by exact E;
+        destruct (IH _ _ G) as [r0 [Gr Br]];
+        assert (o <> o') by (intro; subst; congruence);
+        rewrite (aget_adel_other Z.eqb zeqb_spec) by assumption; eauto ]
+    end.
+  - (* edit bridger *)
+    unfold edit_bridger. dm; prj; try exact IH.
+    intros b' o' G. prj.
+    destruct (Z.eq_dec b b') as [E|E].
+    + subst. rewrite (aget_aset_same Z.eqb zeqb_spec) in G. inversion G; subst.
+      rewrite (aget_aset_same Z.eqb zeqb_spec). eexists; split; eauto.
+    + rewrite (aget_aset_other Z.eqb zeqb_spec) in G by exact E.
+      match goal with Ho : aget Z.eqb o (oracles s) = Some ?rec |- _ =>
+        destruct (Z.eq_dec (o_bridger rec) b') as [E2|E2];
+        [ subst; rewrite (aget_adel_same Z.eqb) in G; discriminate
+        | rewrite (aget_adel_other Z.eqb zeqb_spec) in G by exact E2;
+          destruct (IH _ _ G) as [r0 [Gr Br]];
+          assert (o <> o') by (intro; subst; congruence);
+          rewrite (aget_aset_other Z.eqb zeqb_spec) by assumption; eauto ]
+      end.
+Qed.
+
+Theorem vote_admission : forall c h b n cl park ms,
+  let s := run c init h in
+  snd (vote s b n cl park ms) = Ok ->
+  exists o rec, aget Z.eqb b (by_bridger s) = Some o /\ aget Z.eqb o (oracles s) = Some rec /\
+                o_online rec = true /\ o_bridger rec = b.
+Proof.
+  intros c h b n cl park ms s H.
+  destruct (vote_accept_online _ _ _ _ _ _ H) as [o [rec [Hb [Ho [Hon _]]]]].
+  assert (I : inv_bridger s).
+  { apply run_inv; [intros ? ? G; discriminate G | intros; apply inv_bridger_step; assumption]. }
+  destruct (I _ _ Hb) as [r [Gr Br]]. rewrite Ho in Gr. inversion Gr; subst. eauto 10.
+Qed.
+
+(* ------------------------------------------------------------------ *)
+(* C01: a parked claim runs its effects at most once                      *)
+(* ------------------------------------------------------------------ *)
+Lemma NoDup_snoc : forall (l : list Z) x, NoDup l -> ~ In x l -> NoDup (l ++ [x]).
+Proof.
+  induction l as [|a l IH]; cbn; intros x N H.
+  - constructor; auto.
+  - inversion N; subst. constructor.
+    + intro A. apply in_app_or in A. destruct A as [A|[A|[]]]; [contradiction | subst; apply H; left; reflexivity].
+    + apply IH; auto.
+Qed.
+
+Definition inv_exec (s : st) : Prop :=
+  NoDup (effects s) /\
+  (forall n, In n (effects s) -> aget Z.eqb n (pending s) = None /\ n <= last_obs s) /\
+  (forall n v, aget Z.eqb n (pending s) = Some v -> n <= last_obs s).
+
+Lemma step_other_frame : forall c s x,
+  match x with Vote _ _ _ _ _ | Exec _ _ => False | _ => True end ->
+  last_obs (fst (step c s x)) = last_obs s /\ pending (fst (step c s x)) = pending s /\
+  effects (fst (step c s x)) = effects s.
+Proof.
+  intros c s x H. destruct x; cbn [step]; try contradiction.
+  - pose proof (bond_core c s o bridger ext stake) as [[A _] [_ [B C]]]. auto.
+  - pose proof (add_core c s o amount) as [[A _] [_ [B C]]]. auto.
+  - pose proof (slash_core s os) as [[A _] [_ [B C]]]. auto.
+  - prj. auto.
+  - pose proof (gov_core s os) as [[A _] [_ [B C]]]. auto.
+  - pose proof (unbond_core c s o) as [[A _] [B C]]. auto.
+  - pose proof (edit_core s o b) as [[A _] [_ [B C]]]. auto.
+Qed.
+
+Lemma inv_exec_step : forall c s x, inv_exec s -> inv_exec (fst (step c s x)).
+Proof.
+  intros c s x [N [E P]].
+  destruct x;
+    try (match goal with |- context [step c s ?x] =>
+           destruct (step_other_frame c s x I) as [A [B C]]; unfold inv_exec; rewrite A, B, C; auto end; fail).
+  - cbn [step]. pose proof (vote_cases s bridger nonce cls park members) as V. vote_inv V; unfold inv_exec.
+    + rewrite Hs. auto.
+    + rewrite Hlo, Hpe, Hef. auto.
+    + rewrite Hlo, Hpe, Hef. repeat split; auto.
+      * destruct (E _ H) as [E1 E2]. destruct park; auto.
+        rewrite (aget_aset_other Z.eqb zeqb_spec); auto. lia.
+      * destruct (E _ H) as [E1 E2]. lia.
+      * intros m v G. destruct park; [|apply P in G; lia].
+        destruct (Z.eq_dec nonce m) as [D|D]; [lia|].
+        rewrite (aget_aset_other Z.eqb zeqb_spec) in G by exact D. apply P in G. lia.
+  - cbn [step]. unfold exec. destruct (aget Z.eqb nonce (pending s)) as [v|] eqn:G; prj; [|unfold inv_exec; auto].
+    destruct handler_ok; prj; [|unfold inv_exec; auto].
+    unfold inv_exec; prj. repeat split.
+    + apply NoDup_snoc; auto. intro A. destruct (E _ A) as [E1 _]. congruence.
+    + apply in_app_or in H. destruct H as [H|[H|[]]].
+      * destruct (E _ H) as [E1 _]. destruct (Z.eq_dec nonce n) as [D|D].
+        -- subst. apply (aget_adel_same Z.eqb).
+        -- rewrite (aget_adel_other Z.eqb zeqb_spec) by exact D. exact E1.
+      * subst. apply (aget_adel_same Z.eqb).
+    + apply in_app_or in H. destruct H as [H|[H|[]]].
+      * apply E. exact H.
+      * subst. eapply P; eauto.
+    + intros m w Gm. destruct (Z.eq_dec nonce m) as [D|D].
+      * subst. rewrite (aget_adel_same Z.eqb) in Gm. discriminate.
+      * rewrite (aget_adel_other Z.eqb zeqb_spec) in Gm by exact D. eapply P; eauto.
+Qed.
+
+Lemma inv_exec_init : inv_exec init.
+Proof.
+  unfold inv_exec. cbn. split; [constructor|]. split; [intros n []|intros n v G; discriminate G].
+Qed.
+
+Theorem exec_once : forall c h, NoDup (effects (run c init h)).
+Proof.
+  intros c h.
+  assert (I : inv_exec (run c init h)).
+  { apply run_inv; [apply inv_exec_init | intros; apply inv_exec_step; assumption]. }
+  apply I.
+Qed.
+
+(* a deferred execution succeeds only for a parked claim, removes it, and logs the nonce once;
+   a failing handler (or a missing claim) changes nothing *)
+Theorem exec_shape : forall s n ok,
+  (snd (exec s n ok) = Ok ->
+     ok = true /\ (exists v, aget Z.eqb n (pending s) = Some v) /\
+     aget Z.eqb n (pending (fst (exec s n ok))) = None /\
+     effects (fst (exec s n ok)) = effects s ++ [n]) /\
+  (snd (exec s n ok) <> Ok -> fst (exec s n ok) = s).
+Proof.
+  intros s n ok. unfold exec. destruct (aget Z.eqb n (pending s)) as [v|] eqn:G.
+  - destruct ok; prj; split; intro H; try discriminate; try reflexivity; try (exfalso; apply H; reflexivity).
+    repeat split; eauto. apply (aget_adel_same Z.eqb).
+  - prj. split; intro H; [discriminate | reflexivity].
+Qed.
+
+(* once executed, a nonce can never be parked again, hence never executed again *)
+Theorem executed_never_pending : forall c h n,
+  In n (effects (run c init h)) -> aget Z.eqb n (pending (run c init h)) = None.
+Proof.
+  intros c h n H.
+  assert (I : inv_exec (run c init h)).
+  { apply run_inv; [apply inv_exec_init | intros; apply inv_exec_step; assumption]. }
+  destruct I as [_ [E _]]. apply E. exact H.
+Qed.
+
+(* ------------------------------------------------------------------ *)
+(* C02: quorum bound at the moment an event takes effect                 *)
+(* ------------------------------------------------------------------ *)
+Definition vpower (os : list (Z * oracle)) (v : Z) : Z :=
+  match aget Z.eqb v os with Some o => power o | None => 0 end.
+Definition vote_power (os : list (Z * oracle)) (votes : list Z) : Z :=
+  fold_right (fun v acc => vpower os v + acc) 0 votes.
+(* power of the distinct voters *)
+Definition dpower (os : list (Z * oracle)) (votes : list Z) : Z := vote_power os (nodup Z.eq_dec votes).
+
+Lemma vpower_nonneg : forall os v, stakes_ok os -> 0 <= vpower os v.
+Proof.
+  intros os v S. unfold vpower. destruct (aget Z.eqb v os) as [o|] eqn:G; [|lia].
+  apply power_nonneg. apply (S v). apply (aget_In Z.eqb zeqb_spec). exact G.
+Qed.
+
+Lemma vote_power_nonneg : forall os l, stakes_ok os -> 0 <= vote_power os l.
+Proof.
+  intros os l S. induction l as [|v r IH]; [cbn; lia|].
+  change (vote_power os (v :: r)) with (vpower os v + vote_power os r).
+  pose proof (vpower_nonneg os v S). lia.
+Qed.
+
+Lemma tally_bound : forall os req votes acc p, stakes_ok os ->
+  tally os req acc votes = Some p -> req <= p /\ p <= acc + vote_power os votes.
+Proof.
+  intros os req votes. induction votes as [|v r IH]; cbn [tally vote_power fold_right]; intros acc p S H; [discriminate|].
+  fold (vote_power os r). unfold vpower.
+  pose proof (vote_power_nonneg os r S) as NN.
+  destruct (aget Z.eqb v os) as [o|] eqn:G.
+  - destruct (acc + power o <? req) eqn:E.
+    + destruct (IH _ _ S H). lia.
+    + apply Z.ltb_ge in E. inversion H; subst. lia.
+  - destruct (IH _ _ S H). lia.
+Qed.
+
+(* votes of addresses without an oracle record add nothing: the tally is the tally of the registered voters *)
+Definition registered (os : list (Z * oracle)) (v : Z) : bool :=
+  match aget Z.eqb v os with Some _ => true | None => false end.
+
+Theorem tally_ignores_nonmembers : forall os req votes acc,
+  tally os req acc votes = tally os req acc (filter (registered os) votes).
+Proof.
+  intros os req votes. induction votes as [|v r IH]; intro acc; cbn [tally filter]; auto.
+  unfold registered at 1. destruct (aget Z.eqb v os) as [o|] eqn:G.
+  - cbn [tally]. rewrite G. destruct (acc + power o <? req); auto.
+  - apply IH.
+Qed.
+
+Theorem nonmember_power_zero : forall os v votes,
+  aget Z.eqb v os = None -> vpower os v = 0 /\ vote_power os (v :: votes) = vote_power os votes.
+Proof. intros os v votes G. unfold vote_power, vpower. cbn. rewrite G. split; reflexivity. Qed.
+
+Lemma quot_bound : forall t p, 0 <= t -> Z.quot (vote_threshold * t) 100 <= p -> vote_threshold * t <= 100 * p + 99.
+Proof.
+  intros t p Ht H. unfold vote_threshold in *.
+  pose proof (Z.quot_rem' (66 * t) 100) as Q.
+  pose proof (Z.rem_bound_pos (66 * t) 100). lia.
+Qed.
+
+Theorem quorum_at_flip : forall c h b n cl park ms,
+  0 <= c_threshold c ->
+  let s := run c init h in
+  let s' := fst (vote s b n cl park ms) in
+  last_obs s' <> last_obs s ->
+  exists a, aget keq (n, cl) (atts s') = Some a /\ a_obs a = true /\
+            66 * last_total s <= 100 * vote_power (oracles s) (a_votes a) + 99.
+Proof.
+  intros c h b n cl park ms Hc s s' H.
+  destruct (inv_total_reach c h Hc) as [N [S T]]. fold s in N, S, T.
+  pose proof (online_power_nonneg _ S) as NN.
+  pose proof (vote_cases s b n cl park ms) as V. fold s' in V. vote_inv V.
+  - exfalso. apply H. congruence.
+  - exfalso. apply H. assumption.
+  - eexists. split; [|split].
+    + rewrite Hat, aget_prune. cbn [fst].
+      replace ((n <=? max_keep) || (n - max_keep <? n)) with true.
+      * apply (aget_aset_same keq keq_spec).
+      * symmetry. apply orb_true_iff. right. apply Z.ltb_lt. unfold max_keep. lia.
+    + reflexivity.
+    + cbn [a_votes]. destruct (tally_bound _ _ _ _ _ S Ht) as [B1 B2].
+      unfold required in B1. pose proof (quot_bound (last_total s) p ltac:(lia) B1) as Q.
+      unfold vote_threshold in Q. lia.
+Qed.
+
+Lemma nodup_id : forall l : list Z, NoDup l -> nodup Z.eq_dec l = l.
+Proof. intros. apply nodup_fixed_point. assumption. Qed.
+
+(* ------------------------------------------------------------------ *)
+(* no oracle counted twice — guarded by "no Unbond of an oracle whose vote is stored" *)
+(* ------------------------------------------------------------------ *)
+Definition inv_votes (s : st) : Prop :=
+  (forall k a v, aget keq k (atts s) = Some a -> In v (a_votes a) ->
+     exists e, aget Z.eqb v (last_by s) = Some e /\ fst k <= e) /\
+  (forall k a, aget keq k (atts s) = Some a -> NoDup (a_votes a)).
+
+Definition is_voter (s : st) (o : Z) : Prop :=
+  exists k a, aget keq k (atts s) = Some a /\ In o (a_votes a).
+
+(* the guard: an Unbond is applied only to an oracle that has no vote in a stored attestation *)
+Definition safe_unbond (s : st) (x : op) : Prop :=
+  match x with Unbond o => ~ is_voter s o | _ => True end.
+
+Lemma cast_votes : forall s n cl o v, In v (a_votes (cast s n cl o)) ->
+  v = o \/ exists a, aget keq (n, cl) (atts s) = Some a /\ In v (a_votes a).
+Proof.
+  intros s n cl o v H. unfold cast in H. cbn [a_votes] in H. apply in_app_or in H.
+  destruct H as [H|[H|[]]]; [|left; auto].
+  destruct (aget keq (n, cl) (atts s)) eqn:G; [right; eauto | contradiction].
+Qed.
+
+Lemma inv_votes_vote_atts : forall s n cl o,
+  inv_votes s -> n = cursor s o + 1 ->
+  forall k a, aget keq k (aset keq (n, cl) (cast s n cl o) (atts s)) = Some a ->
+  (forall v, In v (a_votes a) -> exists e, aget Z.eqb v (aset Z.eqb o n (last_by s)) = Some e /\ fst k <= e)
+  /\ NoDup (a_votes a).
+Proof.
+  intros s n cl o [I1 I2] Hn k a G.
+  assert (CUR : forall k0 a0, aget keq k0 (atts s) = Some a0 -> In o (a_votes a0) -> fst k0 < n).
+  { intros k0 a0 G0 Hin. destruct (I1 _ _ _ G0 Hin) as [e [Ge Le]]. unfold cursor in Hn. rewrite Ge in Hn. lia. }
+  destruct (keq (n, cl) k) eqn:E.
+  - apply keq_spec in E. subst k. rewrite (aget_aset_same keq keq_spec) in G. inversion G; subst a. split.
+    + intros v Hv. cbn [fst]. destruct (Z.eq_dec o v) as [D|D].
+      * subst. rewrite (aget_aset_same Z.eqb zeqb_spec). eexists; split; eauto. lia.
+      * rewrite (aget_aset_other Z.eqb zeqb_spec) by exact D.
+        apply cast_votes in Hv. destruct Hv as [Hv|[a0 [G0 Hv]]]; [congruence|].
+        apply (I1 _ _ _ G0 Hv).
+    + unfold cast. cbn [a_votes]. destruct (aget keq (n, cl) (atts s)) as [a0|] eqn:G0.
+      * apply NoDup_snoc; [eapply I2; eauto|]. intro Hin. pose proof (CUR _ _ G0 Hin). cbn in *. lia.
+      * cbn. constructor; [intros []|constructor].
+  - apply keq_neq in E. rewrite (aget_aset_other keq keq_spec) in G by exact E. split; [|eapply I2; eauto].
+    intros v Hv. destruct (Z.eq_dec o v) as [D|D].
+    + subst. rewrite (aget_aset_same Z.eqb zeqb_spec). eexists; split; eauto.
+      pose proof (CUR _ _ G Hv). lia.
+    + rewrite (aget_aset_other Z.eqb zeqb_spec) by exact D. apply (I1 _ _ _ G Hv).
+Qed.
+
+Lemma inv_votes_step : forall c s x, inv_votes s -> safe_unbond s x -> inv_votes (fst (step c s x)).
+Proof.
+  intros c s x IH SF. destruct x; cbn [step].
+  - pose proof (vote_cases s bridger nonce cls park members) as V. vote_inv V.
+    + rewrite Hs. exact IH.
+    + unfold inv_votes. rewrite Hat, Hlb. split.
+      * intros k a v G Hv. destruct (inv_votes_vote_atts s nonce cls o IH Hn k a G) as [A _]. auto.
+      * intros k a G. destruct (inv_votes_vote_atts s nonce cls o IH Hn k a G) as [_ B]. auto.
+    + unfold inv_votes. rewrite Hat, Hlb.
+      assert (F : forall k a, aget keq k (prune nonce (aset keq (nonce, cls) {| a_obs := true; a_votes := a_votes (cast s nonce cls o) |}
+                                 (aset keq (nonce, cls) (cast s nonce cls o) (atts s)))) = Some a ->
+                 exists a0, aget keq k (aset keq (nonce, cls) (cast s nonce cls o) (atts s)) = Some a0 /\ a_votes a = a_votes a0).
+      { intros k a G. apply aget_prune_Some in G. destruct (keq (nonce, cls) k) eqn:E.
+        - apply keq_spec in E. subst k. rewrite (aget_aset_same keq keq_spec) in *. inversion G; subst a.
+          eexists; split; eauto.
+        - apply keq_neq in E. rewrite (aget_aset_other keq keq_spec) in G by exact E. eauto. }
+      split.
+      * intros k a v G Hv. destruct (F _ _ G) as [a0 [G0 EV]]. rewrite EV in Hv.
+        destruct (inv_votes_vote_atts s nonce cls o IH Hn k a0 G0) as [A _]. auto.
+      * intros k a G. destruct (F _ _ G) as [a0 [G0 EV]]. rewrite EV.
+        destruct (inv_votes_vote_atts s nonce cls o IH Hn k a0 G0) as [_ B]. auto.
+  - destruct (exec_core s nonce handler_ok) as [[_ [A _]] B]. unfold inv_votes. rewrite A, B. exact IH.
+  - destruct (bond_core c s o bridger ext stake) as [[_ [A _]] [B _]]. unfold inv_votes. rewrite A, B. exact IH.
+  - destruct (add_core c s o amount) as [[_ [A _]] [B _]]. unfold inv_votes. rewrite A, B. exact IH.
+  - destruct (slash_core s os) as [[_ [A _]] [B _]]. unfold inv_votes. rewrite A, B. exact IH.
+  - exact IH.
+  - destruct (gov_core s os) as [[_ [A _]] [B _]]. unfold inv_votes. rewrite A, B. exact IH.
+  - (* unbond: only of a non-voter *)
+    cbn [safe_unbond] in SF. unfold unbond. dm; prj; try exact IH.
+    destruct IH as [I1 I2]. split; prj; [|exact I2].
+    intros k a v G Hv. destruct (I1 _ _ _ G Hv) as [e [Ge Le]].
+    assert (o <> v). { intro; subst. apply SF. exists k, a. auto. }
+    rewrite (aget_adel_other Z.eqb zeqb_spec) by assumption. eauto.
+  - destruct (edit_core s o b) as [[_ [A _]] [B _]]. unfold inv_votes. rewrite A, B. exact IH.
+Qed.
+
+Theorem votes_distinct_guarded : forall c h k a,
+  guarded c safe_unbond init h ->
+  aget keq k (atts (run c init h)) = Some a -> NoDup (a_votes a).
+Proof.
+  intros c h k a G.
+  assert (I : inv_votes (run c init h)).
+  { apply (run_inv_guarded inv_votes safe_unbond c).
+    - intros. apply inv_votes_step; assumption.
+    - split; [intros ? ? ? F; discriminate F | intros ? ? F; discriminate F].
+    - exact G. }
+  intro Ha. destruct I as [_ I2]. eapply I2; eauto.
+Qed.
+
+(* the quorum bound in terms of the DISTINCT registered voters, for guarded histories *)
+Theorem quorum_distinct_guarded : forall c h b n cl park ms,
+  0 <= c_threshold c ->
+  guarded c safe_unbond init (h ++ [Vote b n cl park ms]) ->
+  let s := run c init h in
+  let s' := fst (vote s b n cl park ms) in
+  last_obs s' <> last_obs s ->
+  exists a, aget keq (n, cl) (atts s') = Some a /\ a_obs a = true /\ NoDup (a_votes a) /\
+            66 * last_total s <= 100 * dpower (oracles s) (a_votes a) + 99.
+Proof.
+  intros c h b n cl park ms Hc G s s' H.
+  destruct (quorum_at_flip c h b n cl park ms Hc H) as [a [Ga [Oa Q]]].
+  assert (ND : NoDup (a_votes a)).
+  { apply (votes_distinct_guarded c (h ++ [Vote b n cl park ms]) (n, cl) a G).
+    rewrite run_snoc. exact Ga. }
+  exists a. repeat split; auto. unfold dpower. rewrite nodup_id by exact ND. exact Q.
+Qed.
+
+(* ------------------------------------------------------------------ *)
+(* C01: an oracle neither votes twice for a nonce nor skips one           *)
+(* (between registrations: histories without Unbond of that oracle)      *)
+(* ------------------------------------------------------------------ *)
+Definition nonces_of (w : Z) (l : list (Z * Z)) : list Z := map snd (filter (fun p => fst p =? w) l).
+
+Fixpoint consec (l : list Z) : Prop :=
+  match l with
+  | a :: (b :: _) as r => b = a + 1 /\ consec r
+  | _ => True
+  end.
+
+Lemma consec_snoc : forall l n, consec l -> (l <> [] -> n = last l 0 + 1) -> consec (l ++ [n]).
+Proof.
+  induction l as [|a r IH]; intros n C H; [cbn; auto|].
+  destruct r as [|b r'].
+  - cbn. split; auto. apply H. discriminate.
+  - destruct C as [C1 C2]. change ((a :: b :: r') ++ [n]) with (a :: ((b :: r') ++ [n])).
+    change (consec (a :: (b :: r') ++ [n])) with (b = a + 1 /\ consec ((b :: r') ++ [n])).
+    split; auto. apply IH; auto. intros _. apply H. discriminate.
+Qed.
+
+Lemma consec_lt : forall r a x, consec (a :: r) -> In x r -> a < x.
+Proof.
+  induction r as [|b r IH]; intros a x C H; [contradiction|].
+  destruct C as [C1 C2]. destruct H as [H|H]; [lia|]. specialize (IH b x C2 H). lia.
+Qed.
+
+Lemma consec_NoDup : forall l, consec l -> NoDup l.
+Proof.
+  induction l as [|a r IH]; intro C; constructor.
+  - intro H. pose proof (consec_lt r a a C H). lia.
+  - apply IH. destruct r; [exact I | apply C].
+Qed.
+
+Lemma nonces_of_snoc : forall w l o n,
+  nonces_of w (l ++ [(o, n)]) = nonces_of w l ++ (if o =? w then [n] else []).
+Proof.
+  intros. unfold nonces_of. rewrite filter_app, map_app. cbn [filter fst].
+  destruct (o =? w); reflexivity.
+Qed.
+
+Definition inv_contig (w : Z) (s : st) : Prop :=
+  consec (nonces_of w (vlog s)) /\
+  (nonces_of w (vlog s) <> [] -> aget Z.eqb w (last_by s) = Some (last (nonces_of w (vlog s)) 0)).
+
+Definition no_unbond_of (w : Z) (_ : st) (x : op) : Prop :=
+  match x with Unbond o => o <> w | _ => True end.
+
+Lemma inv_contig_vote : forall w s s' o n,
+  inv_contig w s -> n = cursor s o + 1 ->
+  vlog s' = vlog s ++ [(o, n)] -> last_by s' = aset Z.eqb o n (last_by s) -> inv_contig w s'.
+Proof.
+  intros w s s' o n [C E] Hn Hvl Hlb. unfold inv_contig. rewrite Hvl, Hlb, nonces_of_snoc.
+  destruct (o =? w) eqn:D.
+  - apply Z.eqb_eq in D. subst o. split.
+    + apply consec_snoc; auto. intro NE. unfold cursor in Hn. rewrite (E NE) in Hn. exact Hn.
+    + intros _. rewrite last_last. apply (aget_aset_same Z.eqb zeqb_spec).
+  - apply Z.eqb_neq in D. rewrite app_nil_r. split; auto.
+    intro NE. rewrite (aget_aset_other Z.eqb zeqb_spec) by exact D. auto.
+Qed.
+
+Lemma inv_contig_step : forall w c s x, inv_contig w s -> no_unbond_of w s x -> inv_contig w (fst (step c s x)).
+Proof.
+  intros w c s x IH SF. destruct x; cbn [step].
+  - pose proof (vote_cases s bridger nonce cls park members) as V. vote_inv V.
+    + rewrite Hs. exact IH.
+    + eapply inv_contig_vote; eauto.
+    + eapply inv_contig_vote; eauto.
+  - destruct (exec_core s nonce handler_ok) as [[_ [_ [_ A]]] B]. unfold inv_contig. rewrite A, B. exact IH.
+  - destruct (bond_core c s o bridger ext stake) as [[_ [_ [_ A]]] [B _]]. unfold inv_contig. rewrite A, B. exact IH.
+  - destruct (add_core c s o amount) as [[_ [_ [_ A]]] [B _]]. unfold inv_contig. rewrite A, B. exact IH.
+  - destruct (slash_core s os) as [[_ [_ [_ A]]] [B _]]. unfold inv_contig. rewrite A, B. exact IH.
+  - exact IH.
+  - destruct (gov_core s os) as [[_ [_ [_ A]]] [B _]]. unfold inv_contig. rewrite A, B. exact IH.
+  - cbn [no_unbond_of] in SF. unfold unbond. dm; prj; try exact IH.
+    destruct IH as [C E]. split; prj; auto.
+    intro NE. rewrite (aget_adel_other Z.eqb zeqb_spec) by exact SF. auto.
+  - destruct (edit_core s o b) as [[_ [_ [_ A]]] [B _]]. unfold inv_contig. rewrite A, B. exact IH.
+Qed.
+
+Theorem votes_contiguous : forall c h w,
+  guarded c (no_unbond_of w) init h ->
+  consec (nonces_of w (vlog (run c init h))) /\ NoDup (nonces_of w (vlog (run c init h))).
+Proof.
+  intros c h w G.
+  assert (I : inv_contig w (run c init h)).
+  { apply (run_inv_guarded (inv_contig w) (no_unbond_of w) c).
+    - intros. apply inv_contig_step; assumption.
+    - split; [exact Logic.I | intro F; exfalso; apply F; reflexivity].
+    - exact G. }
+  destruct I as [C _]. split; auto. apply consec_NoDup. exact C.
+Qed.
+
+(* ------------------------------------------------------------------ *)
+(* refutations (concrete witnesses, replayed on the real keeper by harness/c01) *)
+(* ------------------------------------------------------------------ *)
+Definition fx (n : Z) : Z := n * 1000000000000000000.
+Definition cfg0 : cfg := {| c_threshold := fx 10000; c_multiple := 10; c_slashfrac := 800000000000000000 |}.
+
+(* four equal oracles; 0 and 1 vote for (nonce 1, class 1); 0 is removed by governance, unbonds (which deletes
+   its per-oracle cursor), is approved and bonds again, and votes again on the still pending attestation *)
+Definition h_rebond : list op :=
+  [GovSet [0; 1; 2; 3];
+   Bond 0 0 0 (fx 25000); Bond 1 1 1 (fx 25000); Bond 2 2 2 (fx 25000); Bond 3 3 3 (fx 25000);
+   Vote 0 1 1 true []; Vote 1 1 1 true [];
+   GovSet [1; 2; 3]; Unbond 0; GovSet [0; 1; 2; 3]; Bond 0 0 0 (fx 25000);
+   Vote 0 1 1 true []].
+
+Theorem revote_refuted :
+  exists c h, 0 <= c_threshold c /\
+    let s := run c init h in
+    exists a, aget keq (1, 1) (atts s) = Some a /\ a_obs a = true /\ last_obs s = 1 /\
+              a_votes a = [0; 1; 0] /\                                     (* oracle 0 is in the vote list twice *)
+              nonces_of 0 (vlog s) = [1; 1] /\                             (* two accepted votes of oracle 0 for nonce 1 *)
+              last_total s = 1000 /\ dpower (oracles s) (a_votes a) = 500 /\
+              100 * dpower (oracles s) (a_votes a) + 99 < 66 * last_total s. (* 50 % of the power was enough *)
+Proof.
+  exists cfg0, h_rebond. split; [vm_compute; discriminate|].
+  vm_compute. eexists. repeat split; reflexivity.
+Qed.
+
+(* truncation of 66*total/100: powers 100, 231, 172 (total 503): the bar is 331 (331.98 truncated);
+   oracles 0 and 1 hold 331 = 65.8 % *)
+Definition h_trunc : list op :=
+  [GovSet [0; 1; 2]; Bond 0 0 0 (fx 10000); Bond 1 1 1 (fx 23100); Bond 2 2 2 (fx 17200);
+   Vote 0 1 1 true []; Vote 1 1 1 true []].
+
+Theorem truncation_refuted :
+  exists c h, 0 <= c_threshold c /\ guarded c safe_unbond init h /\
+    let s := run c init h in
+    exists a, aget keq (1, 1) (atts s) = Some a /\ a_obs a = true /\ last_obs s = 1 /\ NoDup (a_votes a) /\
+              last_total s = 503 /\ dpower (oracles s) (a_votes a) = 331 /\
+              100 * dpower (oracles s) (a_votes a) < 66 * last_total s.
+Proof.
+  exists cfg0, h_trunc. split; [vm_compute; discriminate|]. split; [cbn; tauto|].
+  vm_compute. eexists. repeat split; try reflexivity.
+  repeat constructor; cbn; intuition discriminate.
+Qed.
+
+(* ------------------------------------------------------------------ *)
+(* transaction layer: required signer versus counted bridger             *)
+(* ------------------------------------------------------------------ *)
+Theorem claim_tx_accept : forall unpacked chk s signers t,
+  snd (deliver_claim unpacked chk s signers t) = Ok ->
+  In (required_signer t) signers /\
+  exists o rec, aget Z.eqb (t_inner t) (by_bridger s) = Some o /\ aget Z.eqb o (oracles s) = Some rec /\
+                o_online rec = true /\
+                In (o, t_nonce t) (vlog (fst (deliver_claim unpacked chk s signers t))).
+Proof.
+  intros unpacked chk s signers t H. unfold deliver_claim in *.
+  destruct (negb (validate_basic unpacked chk t)); [discriminate|].
+  destruct (zmem (required_signer t) signers) eqn:Z; cbn [negb] in *; [|discriminate].
+  split; [apply zmem_In; exact Z|].
+  destruct (vote_accept_online _ _ _ _ _ _ H) as [o [rec [A [B [C [_ D]]]]]]. eauto 10.
+Qed.
+
+(* with the wrapper = wrapped bridger check in place, the bridger a vote is counted for had to sign *)
+Theorem signer_guarded : forall unpacked s signers t,
+  snd (deliver_claim unpacked true s signers t) = Ok -> In (t_inner t) signers.
+Proof.
+  intros unpacked s signers t H. pose proof (claim_tx_accept _ _ _ _ _ H) as [A _].
+  unfold deliver_claim, validate_basic in H.
+  destruct unpacked; cbn [andb negb] in H; [|discriminate].
+  destruct (t_inner_valid t); cbn [andb negb orb] in H; [|discriminate].
+  destruct (t_wrapper t =? t_inner t) eqn:E; cbn [negb] in H; [|discriminate].
+  apply Z.eqb_eq in E. unfold required_signer in A. congruence.
+Qed.
+
+(* the code as it is: a transaction decoded from bytes never gets past ValidateBasic *)
+Theorem bytes_path_rejects : forall s signers t, deliver_claim_bytes s signers t = (s, Err E_Invalid).
+Proof. intros. reflexivity. Qed.
+
+(* the code as it is, once the message carries its value: account 300 (bridger of nobody) is the only signer;
+   three of its transactions are counted as votes of oracles 0, 1, 2 and event nonce 1 takes effect *)
+Definition h_three : list op :=
+  [GovSet [0; 1; 2; 3];
+   Bond 0 0 0 (fx 20000); Bond 1 1 1 (fx 20000); Bond 2 2 2 (fx 20000); Bond 3 3 3 (fx 20000)].
+Definition forged (inner : Z) : claim_tx :=
+  {| t_wrapper := 300; t_inner := inner; t_inner_valid := true; t_nonce := 1; t_cls := 1; t_park := true; t_members := [] |}.
+
+Theorem signer_refuted :
+  exists c h signers,
+    let s0 := run c init h in
+    (forall b o, aget Z.eqb b (by_bridger s0) = Some o -> ~ In b signers) /\   (* no registered bridger signs *)
+    let s1 := fst (deliver_claim_mem s0 signers (forged 0)) in
+    let s2 := fst (deliver_claim_mem s1 signers (forged 1)) in
+    let s3 := fst (deliver_claim_mem s2 signers (forged 2)) in
+    snd (deliver_claim_mem s0 signers (forged 0)) = Ok /\
+    snd (deliver_claim_mem s1 signers (forged 1)) = Ok /\
+    snd (deliver_claim_mem s2 signers (forged 2)) = Ok /\
+    last_obs s0 = 0 /\ last_obs s3 = 1 /\
+    vlog s3 = [(0, 1); (1, 1); (2, 1)].
+Proof.
+  exists cfg0, h_three, [300]. cbv zeta. split.
+  - intros b o G [E|[]]. subst b. vm_compute in G. discriminate.
+  - vm_compute. repeat split; reflexivity.
+Qed.
+
+(* ------------------------------------------------------------------ *)
+(* non-vacuity: competing claims, a later nonce gathering votes first, deferred execution *)
+(* ------------------------------------------------------------------ *)
+Definition h_example : list op :=
+  [GovSet [0; 1; 2];
+   Bond 0 0 0 (fx 30000); Bond 1 1 1 (fx 30000); Bond 2 2 2 (fx 30000);
+   Vote 0 1 1 false []; Vote 1 1 1 false [];      (* nonce 1 decided by 0 and 1 *)
+   Vote 0 2 2 true []; Vote 1 2 3 true [];        (* nonce 2: two competing claims *)
+   Vote 0 3 4 true []; Vote 1 3 4 true [];        (* nonce 3 has 2/3 of the power while 2 is undecided *)
+   Vote 2 1 1 false [];                           (* late vote on the observed attestation of nonce 1 *)
+   Vote 2 2 2 true [];                            (* decides nonce 2 for class 2 *)
+   Vote 2 3 4 true [];                            (* only now nonce 3 takes effect *)
+   Vote 2 3 4 true [];                            (* refused: not contiguous *)
+   Exec 3 true; Exec 3 true; Exec 2 false; Exec 2 true; Exec 7 true].
+
+Theorem example_history :
+  guarded cfg0 safe_unbond init h_example /\
+  let s := run cfg0 init h_example in
+  applied s = [(1, 1); (2, 2); (3, 4)] /\ last_obs s = 3 /\ effects s = [3; 2] /\ pending s = [] /\
+  vlog s = [(0, 1); (1, 1); (0, 2); (1, 2); (0, 3); (1, 3); (2, 1); (2, 2); (2, 3)] /\
+  last_total s = 900 /\ online_power (oracles s) = 900 /\
+  (exists a, aget keq (2, 3) (atts s) = Some a /\ a_obs a = false /\ a_votes a = [1]).
+Proof.
+  split; [cbn; tauto|]. vm_compute. repeat split; try reflexivity. eexists. repeat split; reflexivity.
 Qed.
